@@ -907,10 +907,10 @@ func main() {
 	}
 	var jobs []job
 	if *tier == "quick" {
-		jobs = []job{{"values", 2, 10, 14, true, 0}, {"values", 8, 8, 12, false, 0}, {"values", 32, 3, 10, false, 0},
-			{"position", 2, 6, 0, false, 0}, {"position", 8, 6, 0, false, 0}, {"position", 32, 3, 0, false, 0},
+		jobs = []job{{"values", 2, 8, 14, true, 0}, {"values", 8, 6, 12, false, 0}, {"values", 32, 2, 10, false, 0},
+			{"position", 2, 4, 0, false, 0}, {"position", 8, 4, 0, false, 0}, {"position", 32, 2, 0, false, 0},
 			{"proginit", 2, 4, 0, false, 0}, {"proginit", 8, 4, 0, false, 0}, {"proginit", 32, 2, 0, false, 0},
-			{"footprints", 1, 25, 0, false, 0}}
+			{"footprints", 1, 15, 0, false, 0}}
 	} else {
 		jobs = []job{{"values", 2, 400, 16, true, 0}, {"values", 3, 160, 14, true, 0}, {"values", 8, 320, 14, false, 0}, {"values", 32, 120, 12, false, 0},
 			{"values", 8, 160, 14, false, 2}, {"values", 4, 160, 14, false, 4},
